@@ -1083,4 +1083,311 @@ Proof.
       * cbn [fst]. destruct (decl_wkey _ _ _ Gw) as [Wk Wb]. rewrite Wk, Wb. unfold ukey. rewrite K.
         rewrite !String.eqb_refl. reflexivity.
 Qed.
+
+(* ---------- the freshness monitor runs in lockstep with the model ---------- *)
+Lemma memN_In : forall x l, memN x l = true <-> In x l.
+Proof.
+  intros x l. unfold memN. rewrite existsb_exists. split.
+  - intros [y [Hy E]]. apply N.eqb_eq in E. subst y. exact Hy.
+  - intros H. exists x. split; [exact H|apply N.eqb_refl].
+Qed.
+
+Lemma memN_false : forall x l, ~ In x l -> memN x l = false.
+Proof. intros x l H. destruct (memN x l) eqn:E; [|reflexivity]. apply memN_In in E. contradiction. Qed.
+
+Record phi (M : mon) (s : state) : Prop := mk_phi {
+  p_started : forall w wr, getN w (s_w s) = Some wr -> In w (n_started M);
+  p_ret : forall x, In x (n_ret M) -> exists wr, done_at s x wr;
+  p_before : forall w l, getN w (n_before M) = Some l -> forall x, In x l -> In x (n_ret M);
+  p_stale : forall x, In x (n_stale M) -> In x (n_ret M);
+  p_holder : forall k L, getS k (s_dir s) = Some L -> is_temp k = false -> ~ In L (n_stale M);
+  p_hit : forall k, In k (n_hit M) -> is_temp k = false /\ exists L, getS k (s_dir s) = Some L }.
+
+Lemma phi_init : phi mon0 init.
+Proof. split; cbn; intros; try discriminate; try contradiction. Qed.
+
+Definition not_rename (e : event) : Prop := match e with ERename _ => False | _ => True end.
+
+(* events other than a rename leave the non-temporary part of the directory alone *)
+Lemma step_dir_nontemp : forall s e s' k, inv sha s -> safe e = true -> not_rename e ->
+  step sha s e = Some s' -> is_temp k = false -> getS k (s_dir s') = getS k (s_dir s).
+Proof.
+  intros s e s' k [IW _ _] S NR H T.
+  destruct e; try discriminate; try destruct NR; cbn in H.
+  - repeat dmatch H. inversion H; subst; clear H. cbn.
+    assert (k <> t) by (intros ->; congruence). mapS. reflexivity.
+  - repeat dmatch H; inversion H; subst; reflexivity.
+  - repeat dmatch H; inversion H; subst; reflexivity.
+  - destruct (getN w (s_w s)) as [wr|] eqn:Gw; [|discriminate].
+    destruct (IW _ _ Gw) as [_ [_ [d [_ [_ [_ L]]]]]].
+    assert (live (w_pc wr) /\ s_dir s' = delS (w_tmp wr) (s_dir s)) as [Lv ->].
+    { destruct (w_pc wr) eqn:Pc; try discriminate; destruct (w_inplace wr); try discriminate;
+        inversion H; (split; [|reflexivity]); [left|right]; reflexivity. }
+    destruct (L Lv) as [Tt _]. assert (k <> w_tmp wr) by (intros ->; congruence). mapS. reflexivity.
+  - repeat dmatch H; inversion H; subst; reflexivity.
+  - repeat dmatch H; inversion H; subst; reflexivity.
+  - repeat dmatch H; inversion H; subst; reflexivity.
+  - repeat dmatch H; inversion H; subst; reflexivity.
+Qed.
+
+Definition create_started (M : mon) (e : event) : Prop :=
+  match e with ECreate w _ _ _ => In w (n_started M) | _ => True end.
+
+Lemma phi_step_other : forall M s e s', phi M s -> good s -> safe e = true -> not_rename e ->
+  create_started M e -> step sha s e = Some s' -> phi M s'.
+Proof.
+  intros M s e s' [P1 P2 P3 P4 P5 P6] [I W D] S NR CS H. split.
+  - intros w wr G. destruct (step_w_origin sha _ _ _ _ _ H S G) as [[wr0 G0]|[t Ee]].
+    + exact (P1 _ _ G0).
+    + subst e. exact CS.
+  - intros x Hx. destruct (P2 _ Hx) as [wr Dn]. exists wr. exact (step_done sha _ _ _ _ _ H Dn).
+  - exact P3.
+  - exact P4.
+  - intros k L G T. rewrite (step_dir_nontemp _ _ _ _ I S NR H T) in G. exact (P5 _ _ G T).
+  - intros k Hk. destruct (P6 _ Hk) as [T [L G]]. split; [exact T|]. exists L.
+    rewrite (step_dir_nontemp _ _ _ _ I S NR H T). exact G.
+Qed.
+
+Lemma phi_exec_other : forall tr M s s', phi M s -> good s -> forallb safe tr = true ->
+  Forall declared tr -> Forall not_rename tr -> Forall (create_started M) tr ->
+  exec sha s tr = Some s' -> phi M s'.
+Proof.
+  induction tr as [|e tr IH]; intros M s s' P G S Dc NR CS H; cbn in H.
+  - inversion H. subst. exact P.
+  - cbn in S. apply andb_true_iff in S. destruct S as [Se St].
+    apply Forall_cons_iff in Dc. destruct Dc as [Dc1 Dc2].
+    apply Forall_cons_iff in NR. destruct NR as [NR1 NR2].
+    apply Forall_cons_iff in CS. destruct CS as [CS1 CS2].
+    destruct (step sha s e) as [s1|] eqn:E; [|discriminate].
+    apply (IH M s1 s'); try assumption.
+    + exact (phi_step_other _ _ _ _ P G Se NR1 CS1 E).
+    + exact (step_good _ _ _ G Se Dc1 E).
+Qed.
+
+Lemma phi_open : forall M s X, phi M s ->
+  phi (mk_mon (n_started M) (n_ret M) (n_before M) (n_stale M) (n_hit M) X) s.
+Proof. intros M s X [P1 P2 P3 P4 P5 P6]. split; assumption. Qed.
+
+Lemma phi_start : forall M s w, phi M s ->
+  phi (mk_mon (w :: n_started M) (n_ret M) (putN w (n_ret M) (n_before M)) (n_stale M) (n_hit M) (n_open M)) s.
+Proof.
+  intros M s w [P1 P2 P3 P4 P5 P6]. split; cbn; try assumption.
+  - intros w' wr G. right. exact (P1 _ _ G).
+  - intros w' l G x Hx. apply (get_put_cases N.eqb Neqb_spec) in G. destruct G as [[-> ->]|[_ G]].
+    + exact Hx.
+    + exact (P3 _ _ G _ Hx).
+Qed.
+
+Lemma phi_rename : forall M s w s', phi M s -> good s -> step sha s (ERename w) = Some s' ->
+  phi (mk_mon (n_started M) (w :: n_ret M) (n_before M)
+         (filter (fun x => String.eqb (wkey i x) (wkey i w))
+                 (match getN w (n_before M) with Some l => l | None => [] end) ++ n_stale M)
+         (wkey i w :: n_hit M) (n_open M)) s'.
+Proof.
+  intros M s w s' [P1 P2 P3 P4 P5 P6] G H. pose proof G as [I W D]. pose proof H as H0. cbn in H.
+  destruct (getN w (s_w s)) as [wr|] eqn:Gw; [|discriminate].
+  destruct (w_pc wr) eqn:Pc; try discriminate.
+  destruct (w_inplace wr) eqn:Inp; try discriminate.
+  destruct (getS (w_tmp wr) (s_dir s)) as [n|] eqn:Gt; [|discriminate].
+  inversion H; subst s'; clear H.
+  destruct (inv_w _ _ I _ _ Gw) as [_ [_ [d [_ [_ [_ Lw]]]]]].
+  destruct (Lw (or_intror Pc)) as [Tt Gt']. assert (n = w) by congruence. subst n.
+  destruct (D _ _ Gw) as [b [Gi C]]. destruct (decl_wkey _ _ _ Gi) as [Wk _].
+  (* w has not returned yet *)
+  assert (~ In w (n_ret M)) as NotRet.
+  { intros Hx. destruct (P2 _ Hx) as [wr' [G' P']]. assert (wr' = wr) by congruence. subst wr'. congruence. }
+  assert (forall x, In x (match getN w (n_before M) with Some l => l | None => [] end) -> In x (n_ret M)) as Bef.
+  { intros x Hx. destruct (getN w (n_before M)) as [l|] eqn:Gb; [exact (P3 _ _ Gb _ Hx)|destruct Hx]. }
+  split; cbn.
+  - intros w' wr' G'. destruct (step_w_origin sha _ (ERename w) _ _ _ H0 eq_refl G') as [[wr0 G0]|[t Ee]]; [|discriminate].
+    exact (P1 _ _ G0).
+  - intros x [<-|Hx].
+    + exists (with_pc wr PDone). split; [cbn; mapN; reflexivity|reflexivity].
+    + destruct (P2 _ Hx) as [wr' Dn]. exists wr'. exact (step_done sha _ _ _ _ _ H0 Dn).
+  - intros w' l Gb x Hx. right. exact (P3 _ _ Gb _ Hx).
+  - intros x Hx. apply in_app_or in Hx. destruct Hx as [Hx|Hx].
+    + apply filter_In in Hx. right. exact (Bef _ (proj1 Hx)).
+    + right. exact (P4 _ Hx).
+  - intros k L Gk T Hin.
+    destruct (String.eqb k (key sha (w_url wr))) eqn:E.
+    + apply String.eqb_eq in E. subst k. rewrite (get_put_eq String.eqb Seqb_spec) in Gk.
+      inversion Gk; subst L. apply in_app_or in Hin. destruct Hin as [Hx|Hx].
+      * apply filter_In in Hx. exact (NotRet (Bef _ (proj1 Hx))).
+      * exact (NotRet (P4 _ Hx)).
+    + apply String.eqb_neq in E.
+      assert (k <> w_tmp wr) by (intros ->; congruence).
+      rewrite (get_put_neq String.eqb Seqb_spec) in Gk by exact E.
+      rewrite (get_del_neq String.eqb Seqb_spec) in Gk by assumption.
+      apply in_app_or in Hin. destruct Hin as [Hx|Hx]; [|exact (P5 _ _ Gk T Hx)].
+      apply filter_In in Hx. destruct Hx as [_ Hx]. apply String.eqb_eq in Hx.
+      destruct (inv_d _ _ I _ _ Gk) as [T'|[wrL [DnL KL]]]; [congruence|].
+      destruct (D _ _ (proj1 DnL)) as [bL [GiL _]]. destruct (decl_wkey _ _ _ GiL) as [WkL _].
+      apply E. congruence.
+  - intros k [<-|Hk].
+    + rewrite Wk. split; [apply key_not_temp|]. exists w. mapS. reflexivity.
+    + destruct (P6 _ Hk) as [T [L Gk]]. split; [exact T|].
+      destruct (step_key_holder sha _ (ERename w) _ _ _ I eq_refl H0 Gk T) as [L' [Gk' _]]. exists L'. exact Gk'.
+Qed.
+
+Definition sw_mon (reads : list readrec) (M : mon) (w p : N) : mon * bool :=
+  let mo1 := if memN w (n_started M) then (M, true) else mon_step i reads (M, true) (AStart w) in
+  if (p =? 4)%N then mon_step i reads mo1 (ARet w true)
+  else if (p =? 5)%N then mon_step i reads mo1 (ARet w false) else mo1.
+
+Lemma sw_phi : forall M s w s' reads, phi M s -> good s ->
+  exec sha s (fst (macro i s w)) = Some s' ->
+  exists M2, sw_mon reads M w (snd (macro i s w)) = (M2, true) /\ phi M2 s'.
+Proof.
+  intros M s w s' reads P G H. unfold sw_mon.
+  assert (exists M1, (if memN w (n_started M) then (M, true) else mon_step i reads (M, true) (AStart w)) = (M1, true)
+                     /\ phi M1 s /\ In w (n_started M1)) as [M1 [-> [P1 In1]]].
+  { destruct (memN w (n_started M)) eqn:E.
+    - exists M. split; [reflexivity|]. split; [exact P|apply memN_In; exact E].
+    - eexists. split; [cbn; reflexivity|]. split; [apply phi_start; exact P|left; reflexivity]. }
+  assert (forall e, safe e = true -> declared e -> not_rename e -> create_started M1 e ->
+                    exec sha s [e] = Some s' -> phi M1 s') as One.
+  { intros e Se De Ne Ce He. apply (phi_exec_other [e] M1 s s'); try assumption.
+    - cbn. rewrite Se. reflexivity.
+    - constructor; [exact De|constructor].
+    - constructor; [exact Ne|constructor].
+    - constructor; [exact Ce|constructor]. }
+  unfold macro in *.
+  destruct (getN w (s_w s)) as [wr|] eqn:Gw.
+  - destruct (w_pc wr) eqn:Pc.
+    + destruct (getN (w_ino wr) (s_ino s)) as [d|] eqn:Gd.
+      * destruct (List.length (w_content wr) <=? List.length d) eqn:Le; cbn [fst snd] in *.
+        -- exists M1. split; [reflexivity|]. apply (One (EClose w)); cbn; auto.
+        -- exists M1. split; [reflexivity|]. apply (One (EWrite w (List.length (w_content wr)))); cbn; auto.
+      * cbn [fst snd] in *. cbn in H. inversion H; subst s'. exists M1. split; [reflexivity|exact P1].
+    + cbn [fst snd] in *. cbn [exec] in H.
+      destruct (step sha s (ERename w)) as [s1|] eqn:E; [|discriminate]. inversion H; subst s1; clear H.
+      eexists. split; [cbn; reflexivity|]. exact (phi_rename _ _ _ _ P1 G E).
+    + cbn [fst snd] in *. cbn in H. inversion H; subst s'. exists M1. split; [reflexivity|exact P1].
+    + cbn [fst snd] in *. cbn in H. inversion H; subst s'. exists M1. split; [reflexivity|exact P1].
+    + cbn [fst snd] in *. cbn in H. inversion H; subst s'. exists M1. split; [reflexivity|exact P1].
+  - destruct (getN w (i_writers i)) as [[u b]|] eqn:Gi.
+    + destruct (getN w (i_tmps i)) as [t|] eqn:Gt; cbn [fst snd] in *.
+      * exists M1. split; [reflexivity|]. apply (One (ECreate w u (dat_of b) t)); cbn; auto.
+        exists b. split; [exact Gi|reflexivity].
+      * cbn in H. inversion H; subst s'. exists M1. split; [reflexivity|exact P1].
+    + cbn [fst snd] in *. cbn in H. inversion H; subst s'. exists M1. split; [reflexivity|exact P1].
+Qed.
+
+Lemma find_read_app : forall r u res pre rest,
+  (forall x, In x pre -> fst (fst x) <> r) ->
+  find_read r (pre ++ (r, u, res) :: rest) = Some res.
+Proof.
+  intros r u res pre rest. induction pre as [|[[r' u'] res'] pre IH]; intros H; cbn.
+  - rewrite N.eqb_refl. reflexivity.
+  - assert (r' <> r) as Hn by (apply (H (r', u', res')); left; reflexivity).
+    destruct (N.eqb r r') eqn:E; [apply N.eqb_eq in E; congruence|].
+    apply IH. intros x Hx. apply H. right. exact Hx.
+Qed.
+
+Lemma sr_phi : forall M s r u s' pre rest, phi M s -> good s ->
+  exec sha s (read_events sha r u s) = Some s' ->
+  (forall x, In x pre -> getN (fst (fst x)) (s_r s) <> None) ->
+  exists M2,
+    mon_step i (pre ++ (r, u, oread_of s' r) :: rest)
+      (mon_step i (pre ++ (r, u, oread_of s' r) :: rest) (M, true) (ABeg r u)) (AEnd r) = (M2, true)
+    /\ phi M2 s'.
+Proof.
+  intros M s r u s' pre rest P G H Pre.
+  destruct (read_result _ _ _ _ G H) as [Gr Res].
+  destruct (read_events_ok r u s) as [Sf Dc].
+  assert (phi M s') as P'.
+  { apply (phi_exec_other (read_events sha r u s) M s s'); try assumption.
+    - unfold read_events. destruct (getS (key sha u) (s_dir s)); repeat constructor.
+    - unfold read_events. destruct (getS (key sha u) (s_dir s)); repeat constructor. }
+  assert (find_read r (pre ++ (r, u, oread_of s' r) :: rest) = Some (oread_of s' r)) as Fr.
+  { apply find_read_app. intros x Hx E. apply (Pre x Hx). rewrite E. exact Gr. }
+  eexists. cbn [mon_step]. cbn [n_open n_started n_stale n_hit].
+  rewrite (get_put_eq N.eqb Neqb_spec). rewrite Fr.
+  pose proof P as [P1 P2 P3 P4 P5 P6]. pose proof G as [I W D].
+  assert ((match oread_of s' r with
+           | OMiss => negb (existsb (String.eqb (ukey i u)) (n_hit M))
+           | OHit b => existsb (fun x => String.eqb (wkey i x) (ukey i u) && String.eqb (wbundle i x) b
+                                         && negb (memN x (n_stale M))) (n_started M)
+           | _ => false
+           end) = true) as Good.
+  { destruct Res as [[Gk ->]|[L [wr [b [Gk [Dn [Gw [K ->]]]]]]]].
+    - destruct (existsb (String.eqb (ukey i u)) (n_hit M)) eqn:E; [|reflexivity].
+      apply existsb_exists in E. destruct E as [k [Hk E]]. apply String.eqb_eq in E. subst k.
+      destruct (P6 _ Hk) as [_ [L GL]]. unfold ukey in GL. congruence.
+    - apply existsb_exists. exists L. split; [exact (P1 _ _ (proj1 Dn))|].
+      destruct (decl_wkey _ _ _ Gw) as [Wk Wb]. rewrite Wk, Wb. unfold ukey. rewrite K, !String.eqb_refl.
+      rewrite (memN_false L (n_stale M)); [reflexivity|]. exact (P5 _ _ Gk (key_not_temp sha u)). }
+  rewrite Good. split; [reflexivity|]. apply phi_open. exact P'.
+Qed.
+
+Definition hook_sched (sched : list sev) : bool :=
+  forallb (fun e => match e with SW _ | SR _ _ => true | _ => false end) sched.
+
+Lemma readers_persist : forall tr s s' (pre : list readrec), exec sha s tr = Some s' ->
+  (forall x, In x pre -> getN (fst (fst x)) (s_r s) <> None) ->
+  (forall x, In x pre -> getN (fst (fst x)) (s_r s') <> None).
+Proof.
+  intros tr s s' pre H P x Hx. destruct (getN (fst (fst x)) (s_r s)) as [rr|] eqn:G; [|destruct (P x Hx G)].
+  destruct (exec_r_stable sha _ _ _ _ _ H G) as [rr' [G' _]]. congruence.
+Qed.
+
+Lemma fresh_lock : forall sched s ps rs sf M pre,
+  hook_sched sched = true ->
+  mgo i s sched = Some (ps, rs, sf) -> good s -> phi M s ->
+  (forall x, In x pre -> getN (fst (fst x)) (s_r s) <> None) ->
+  snd (fresh_go i (pre ++ rs) sched ps (M, true)) = true.
+Proof.
+  induction sched as [|e sched IH]; intros s ps rs sf M pre Hs H G P Pre; cbn in H.
+  - reflexivity.
+  - cbn in Hs. apply andb_true_iff in Hs. destruct Hs as [He Hs].
+    destruct e as [w|r u|w|w ok|r u|r]; try discriminate.
+    + destruct (exec sha s (fst (macro i s w))) as [s1|] eqn:E; [|discriminate].
+      destruct (mgo i s1 sched) as [[[ps1 rs1] sf1]|] eqn:Mg; [|discriminate].
+      inversion H; subst; clear H.
+      destruct (macro_ok s w) as [Sf Dc].
+      destruct (sw_phi M s w s1 (pre ++ rs) P G E) as [M2 [EM P2]].
+      cbn [fresh_go hd tl fst]. unfold sw_mon in EM. rewrite EM.
+      apply (IH s1 ps1 rs sf M2 pre Hs Mg (exec_good _ _ _ G Sf Dc E) P2).
+      exact (readers_persist _ _ _ _ E Pre).
+    + destruct (exec sha s (read_events sha r u s)) as [s1|] eqn:E; [|discriminate].
+      destruct (mgo i s1 sched) as [[[ps1 rs1] sf1]|] eqn:Mg; [|discriminate].
+      inversion H; subst; clear H.
+      destruct (read_events_ok r u s) as [Sf Dc].
+      destruct (sr_phi M s r u s1 pre rs1 P G E Pre) as [M2 [EM P2]].
+      cbn [fresh_go]. rewrite EM.
+      replace (pre ++ (r, u, oread_of s1 r) :: rs1) with ((pre ++ [(r, u, oread_of s1 r)]) ++ rs1)
+        by (rewrite <- app_assoc; reflexivity).
+      apply (IH s1 ps rs1 sf M2 _ Hs Mg (exec_good _ _ _ G Sf Dc E) P2).
+      intros x Hx. apply in_app_or in Hx. destruct Hx as [Hx|[<-|[]]].
+      * exact (readers_persist _ _ _ _ E Pre x Hx).
+      * cbn [fst]. destruct (read_result _ _ _ _ G E) as [Gr _].
+        (* the reader exists after its Get *)
+        assert (oread_of s1 r <> OErr \/ True) as _ by (right; exact Logic.I).
+        unfold read_events in E. destruct (getS (key sha u) (s_dir s)) as [L|]; cbn in E;
+          rewrite Gr in E.
+        -- cbn in E. intros Hn.
+           destruct (step sha _ (ERead r _)) as [sa|] eqn:Ea in E; [|discriminate].
+           destruct (step sha sa (EEof r)) as [sb|] eqn:Eb in E; [|discriminate].
+           inversion E; subst sb. cbn in Eb. repeat dmatch Eb. inversion Eb; subst s1. cbn in Hn.
+           rewrite (get_put_eq N.eqb Neqb_spec) in Hn. discriminate.
+        -- inversion E; subst s1. cbn. rewrite (get_put_eq N.eqb Neqb_spec). discriminate.
+Qed.
+
+Theorem model_spec_ok : wf i = true -> spec_ok i (model i) = true.
+Proof.
+  intros Wf. unfold wf in Wf.
+  apply andb_true_iff in Wf. destruct Wf as [Wf Tm].
+  apply andb_true_iff in Wf. destruct Wf as [Wf Hs].
+  apply andb_true_iff in Wf. destruct Wf as [_ St].
+  unfold model. destruct (mgo i init (i_sched i)) as [[[ps rs] sf]|] eqn:Mg; [|discriminate].
+  destruct (reads_model_ok _ _ _ _ _ good_init Mg) as [Rd Gf].
+  unfold spec_ok. apply andb_true_iff. split; [apply andb_true_iff; split|].
+  - unfold reads_ok. cbn [o_reads]. exact Rd.
+  - unfold fresh_ok. cbn [o_reads o_points].
+    exact (fresh_lock (i_sched i) init ps rs sf mon0 [] Hs Mg good_init phi_init (fun x (H : In x []) => match H with end)).
+  - unfold listing_ok. cbn [o_dir]. apply andb_true_iff. split; [exact (listing_model_ok _ Gf)|].
+    apply forallb_forall. intros [w t] Hin. cbn [snd].
+    rewrite forallb_forall in Tm. specialize (Tm _ Hin). cbn [snd] in Tm.
+    rewrite (temp_not_keyshape _ Tm). reflexivity.
+Qed.
 End Oracle.
